@@ -243,3 +243,21 @@ func (*NeedyRegistryAware) Naming() string                                     {
 func (*NeedyRegistryAware) PostProcessDefinitionRegistry(container.DefinitionRegistry, any, string) error {
 	return nil
 }
+
+// TopCloser is a self-contained closer (its events go to its own log) for applications that are started
+// through the package-level ioc.Run / ioc.Register.
+type TopCloser struct {
+	Nm   string
+	Log  *mon.Lifecycle
+	Fail bool
+}
+
+func (t *TopCloser) Naming() string { return t.Nm }
+func (t *TopCloser) Close() error {
+	t.Log.Add("close-begin", t.Nm)
+	t.Log.Add("close-end", t.Nm)
+	if t.Fail {
+		return errors.New("injected fault: close of " + t.Nm)
+	}
+	return nil
+}
